@@ -139,9 +139,18 @@ CHECKS = [
         "the stated bounded scope is covered for them; MovingWindow wrappers not covered; even-microsecond periods for the proof",
         "contract-based deductive verification of the index arithmetic + bounded native exploration of the real class (stand-in)",
         "DESIGN.md 3 (C09)"),
+    chk("C05", "exploration",
+        "Bounded exploration (stand-in, not a proof): every flat expression with up to 4 operands and one parenthesised pair, seeded "
+        "random nested formula strings and seeded random composition-API trees (min/max/consumption/production/constants) are "
+        "compiled by the real Tokenizer / FormulaBuilder / HigherOrderFormulaBuilder, executed on a float stack and compared with exact "
+        "Fraction arithmetic under ordinary precedence. The steps' stack effects and operand order are proved deductively (IEEE mode).",
+        "compiler correctness over all programs is not proved (needs a parse-forest invariant and re-association over the reals); the "
+        "explored shapes and value lattice are stated in the evidence",
+        "bounded exploration of the real compiler against an exact oracle (stand-in) + deductive step contracts (z3 FP)",
+        "DESIGN.md 3 (C05)"),
 ]
 
 _PENDING = "check under construction in this session (contracts not yet written); will be claimed once its obligations discharge"
 NOT_APPLICABLE = [
     {"property_id": "C12", "reason": "formula generators are graph algorithms over networkx.DiGraph (recursive dfs, successor-set classification); no contract within reach of the VC generator expresses 'the generated formula balances for every valid graph' (DESIGN.md 4)"},
-] + [{"property_id": f"C{n:02d}", "reason": _PENDING} for n in (1, 2, 5, 20)]
+] + [{"property_id": f"C{n:02d}", "reason": _PENDING} for n in (1, 2, 20)]
